@@ -444,7 +444,9 @@ def compare(it, sp, pre_snap, roots, eff0, outcome, prefix):
 
 def compare_outcome_only(it, sp, outcome, prefix):
     p = it.p
-    if outcome.kind == 'raise' and sp.exc is None:
+    if outcome.kind == 'raise' and sp.exc is None and outcome.value.clsname in getattr(sp, 'may_raise', ()):
+        p.prove('%s/outcome-ok' % prefix, z3.BoolVal(True))
+    elif outcome.kind == 'raise' and sp.exc is None:
         p.prove('%s/outcome:' % prefix, z3.BoolVal(False),
                 detail='outcome: raised %s, spec says returns' % outcome.value.clsname)
     elif outcome.kind == 'return' and sp.exc is not None:
